@@ -13,6 +13,7 @@ struct ZooGenCfg
 	bool smartPointersSet = false;
 	bool nonEmptyStrings = false;
 	int jumboMember = -1;        // >= 0: this sequence member gets a size around the library's estimate cap (1024); see DrawJumbo
+	uint32_t altDocOneIn = 0;    // > 0: 1 generated value in N is written by "another version of the class" (null elements in sets)
 	uint32_t jumboOneIn = 1;     // the member is made big in 1 of N generated values (histories mix big and small states)
 };
 
@@ -111,10 +112,12 @@ inline void GenZoo(Source& s, Lane l, Zoo& z, const ZooGenCfg& g)
 	z.durMs = std::chrono::milliseconds(GenSigned(s, l, 44));
 	{
 		// time points: around the epoch, before it, with and without sub-second parts
-		const int64_t secs = GenSigned(s, l, 33);   // system_clock::time_point counts nanoseconds in 64 bits: about +-292 years
+		const bool corner = s.chance(l, 1, 6);
+		const int64_t secs = corner ? CalendarCorner(s, l, false) : GenSigned(s, l, 33);   // system_clock::time_point counts nanoseconds in 64 bits: about +-292 years
 		const int64_t sub = static_cast<int64_t>(s.draw(l, 3) == 0 ? 0 : s.draw(l, 1000000000));
 		z.tp = std::chrono::system_clock::time_point(std::chrono::duration_cast<std::chrono::system_clock::duration>(std::chrono::seconds(secs) + std::chrono::nanoseconds(sub)));
-		z.tpMs = std::chrono::time_point<std::chrono::system_clock, std::chrono::milliseconds>(std::chrono::milliseconds(secs * 1000 + static_cast<int64_t>(s.draw(l, 1000))));
+		const int64_t secsMs = corner ? CalendarCorner(s, l, true) : secs;
+		z.tpMs = std::chrono::time_point<std::chrono::system_clock, std::chrono::milliseconds>(std::chrono::milliseconds(secsMs * 1000 + static_cast<int64_t>(s.draw(l, 1000))));
 	}
 	z.bits = std::bitset<8>(s.draw(l, 256));
 	z.tup = std::make_tuple(ZInt(s, l), ZStr(s, l, g), s.chance(l, 1, 2));
@@ -157,9 +160,17 @@ inline void GenZoo(Source& s, Lane l, Zoo& z, const ZooGenCfg& g)
 		if (s.chance(l, 1, 2)) r.opt = ZInt(s, l);
 		r.wide = ToUtf16(GenText(s, l, g.archive == A_XML ? TextProfile::Xml : TextProfile::Csv, 8));
 		r.color = static_cast<Color>(s.draw(l, 3));
-		r.when = std::chrono::time_point<std::chrono::system_clock, std::chrono::seconds>(std::chrono::seconds(GenSigned(s, l, 34)));
+		r.when = std::chrono::time_point<std::chrono::system_clock, std::chrono::seconds>(std::chrono::seconds(s.chance(l, 1, 6) ? CalendarCorner(s, l, true) : GenSigned(s, l, 34)));
 		if (g.nonEmptyStrings) { if (r.name.empty()) r.name = "n"; if (r.wide.empty()) r.wide = u"n"; }
 		z.rows.push_back(r);
+	}
+	if (g.altDocOneIn && g.archive != A_CSV && s.chance(l, 1, g.altDocOneIn))
+	{
+		z.altSetDoc = true;
+		for (auto& x : z.uset) { z.usetAlt.emplace_back(x); if (s.chance(l, 1, 3)) z.usetAlt.emplace_back(std::nullopt); }
+		if (z.usetAlt.empty() || s.chance(l, 1, 3)) z.usetAlt.insert(z.usetAlt.begin(), std::nullopt);
+		for (auto x : z.mset) { z.msetAlt.emplace_back(x); if (s.chance(l, 1, 3)) z.msetAlt.emplace_back(std::nullopt); }
+		if (z.msetAlt.empty() || s.chance(l, 1, 3)) z.msetAlt.emplace_back(std::nullopt);
 	}
 	if (g.jumboMember >= 0 && g.archive != A_CSV && s.chance(l, 1, g.jumboOneIn)) MakeJumbo(s, l, z, g.jumboMember);
 	z.csvRoot = g.csvRoot >= 0 ? g.csvRoot : (g.archive == A_CSV ? static_cast<int>(s.draw(l, 4)) : 0);
